@@ -65,6 +65,8 @@ def render(e):
         return "sum([%s for %s in range(%d)])" % (render(e[3]), e[1], e[2])
     if k == "lam":
         return "(lambda %s: %s)(%s)" % (e[1], render(e[2]), render(e[3]))
+    if k == "raw":
+        return e[1]         # literal source (differential checks only: the reference does not evaluate it)
     if k == "fail":
         return "_fail(%r)" % (e[1],)
     if k == "try":
